@@ -8,9 +8,11 @@ from harness import gen
 from harness.framework import Suite
 
 PID = "C08"
-LEAN_MODS = ["SwcVerif.Props.C08", "SwcVerif.Props.C08Gen"]
-TRANSLATE_ALGO = ["AlgoTraverse", "AlgoBranches"]   # Gen/AlgoBranches.lean (Tree.get_branches / get_paths / get_furcations and their closures) runs on Gen/AlgoTraverse.lean
-DRIVER_FILES = ["SwcVerif/Model/AlgoRunBranches.lean"]
+LEAN_MODS = ["SwcVerif.Props.C08", "SwcVerif.Props.C08Gen", "SwcVerif.Props.C08Node"]
+# Gen/AlgoBranches.lean (Tree.get_branches / get_paths / get_furcations and their closures) runs on Gen/AlgoTraverse.lean;
+# Gen/AlgoNodeBranch.lean (Tree.get_tips, Tree.Node.branch) runs on the node methods of Gen/AlgoNode.lean
+TRANSLATE_ALGO = ["AlgoTraverse", "AlgoBranches", "AlgoNode", "AlgoNodeBranch"]
+DRIVER_FILES = ["SwcVerif/Model/AlgoRunBranches.lean", "SwcVerif/Model/AlgoRunNodeBranch.lean"]
 THEOREMS = [
     "C08.getBranches_eq", "C08.branches_partition_edges", "C08.branch_shape", "C08.branch_ends", "C08.getPaths_eq", "C08.paths_one_per_tip",
     "C08.tips_eq_childless", "C08.tipsOf_childless", "C08.furcations_eq", "C08.furcsOf_ge2", "C08.branchTree_table",
@@ -18,6 +20,9 @@ THEOREMS = [
     "RefineClosures.spec_wrap", "RefineClosures.traverse_closures", "RefineBranches.collectBranches_refines", "RefineBranches.collectFurcations_refines",
     "RefineBranches.assignPath_refines", "RefineBranches.collectPath_refines", "RefineBranches.getBranches_refines", "RefineBranches.getFurcations_refines",
     "C08.generated_getBranches_eq", "C08.generated_getBranches_eq_model", "C08.generated_furcations_eq",
+    # node-level methods generated from tree.py / node.py on this run (Gen/AlgoNode.lean, Gen/AlgoNodeBranch.lean)
+    "RefineNode.node_parent_spec", "RefineNode.node_is_root_spec", "RefineNode.node_children_spec", "RefineNode.node_is_furcation_spec",
+    "RefineNode.node_is_tip_spec", "RefineNodeBranch.getTips_refines", "C08.generated_tips_childless", "C08.generated_tips_eq_tipsOf",
 ]
 TRUSTED = ["hand-written models Model/Branches.lean of the traversal callbacks (tied by the c08.decomp correspondence suite)"]
 ASSUMPTIONS = ["the traversal loop is C04's machine (C04.traverse_eq_spec)", "np.setdiff1d returns the sorted ids that never occur as a parent"]
@@ -178,6 +183,13 @@ class Decomp(Suite):
                 return {"exc": type(e).__name__, "msg": f"{what} raised on a tree of {n_eff} nodes: {str(e)[:160]}"}
         res["node_branch"] = {str(i): [int(x) for x in t.node(i).branch().origin_id()] for i in range(min(n_eff, 12))}
         res["node_flags"] = {str(i): [bool(t.node(i).is_furcation()), bool(t.node(i).is_tip())] for i in range(min(n_eff, 12))}
+        # the node-handle methods themselves (for the generated definitions of Gen/AlgoNode.lean): parent / children / is_root
+        res["node_info"] = {}
+        for i in list(range(min(n_eff, 12))) + ([n_eff - 1] if n_eff > 12 else []):
+            nd = t.node(i)
+            par = nd.parent()
+            res["node_info"][str(i)] = {"parent": None if par is None else int(par.id), "children": [int(c.id) for c in nd.children()],
+                                        "root": bool(nd.is_root()), "furc": bool(nd.is_furcation()), "tip": bool(nd.is_tip())}
         # the less-used entry points onto the same decomposition
         from swcgeom.transforms import ToBranchTree, ToLongestPath
 
@@ -217,6 +229,19 @@ class Decomp(Suite):
         out += [("gbranches " + a, sl(res["branches"])), ("gfurcs " + a, gen.ints(res["furcations"]).replace("_", ""))]
         if t["n"] <= 1500:
             out.append(("gpaths " + a, sl(res["paths"])))       # the association-list dictionary of the generated code is quadratic
+        # Tree.get_tips / Tree.Node.branch / the node-handle methods as generated on this run (Gen/AlgoNodeBranch.lean, Gen/AlgoNode.lean);
+        # get_tips is compared in the order the method returns (not sorted)
+        b = f"pids={gen.ints(t['pids'])}"
+        ii = lambda l: gen.ints(l).replace("_", "")
+        if t["n"] <= 1500:                                       # `x in pids` per node: quadratic
+            out.append(("gtips " + b, ii(res["tips"])))
+        for i, br in res["node_branch"].items():
+            if t["n"] <= 400 or int(i) < 3:
+                out.append((f"gnodebranch {b} node={i}", ii(br)))
+        for i, d in res.get("node_info", {}).items():
+            if t["n"] <= 400 or int(i) < 3:
+                out.append((f"gnode {b} node={i}", f"parent={'N' if d['parent'] is None else d['parent']} children={ii(d['children'])} "
+                                                   f"root={int(d['root'])} furc={int(d['furc'])} tip={int(d['tip'])}"))
         return out
 
     def oracle(self, case, res):
